@@ -54,7 +54,9 @@ def emit_asm(inst, ins, asm):
         return   # no effect on x86-TSO for ordinary accesses; compiler barrier only
     if t in ('rep; nop', 'pause'):
         if inst.resumable:
-            body.append('rt_budget = 0; /* spin hint */')
+            inst.spin_yield()
+        else:
+            body.append('RT_SPIN_PLAIN();')
         return
     if t == 'rdtsc':
         raise Unsupported('rdtsc')
@@ -64,7 +66,7 @@ def emit_asm(inst, ins, asm):
         ops = decode_operands(asm, ins.args)
         x = inst.v(ops[1]['arg'])
         ct = T.ct(ins.ty)
-        body.append('%s = (%s)RT_BSR%d(%s);' % (inst.reg(ins.res), ct, w, x))
+        body.append(inst.assign(ins.res, '(%s)RT_BSR%d(%s)' % (ct, w, x)))
         return
     m = re.match(r'^(lock; ?)?(xchg|cmpxchg|xadd|add|sub|and|or|xor|inc|dec|neg|not)([bwlq]) (.*)$', t)
     if not m:
@@ -87,6 +89,22 @@ def emit_asm(inst, ins, asm):
             raise Unsupported('asm output operand %d read without tied input' % n)
         return '(%s)%s' % (ict, inst.v(o['arg']))
 
+    def psrc(n):
+        """pointer-preserving source operand (for stores into pointer slots)"""
+        o = ops[n]
+        if o['out']:
+            for q in ops:
+                if q['tied'] == n:
+                    return inst.pv(q['arg'])
+            raise Unsupported('asm output operand %d read without tied input' % n)
+        return inst.pv(o['arg'])
+
+    def setres_slot():
+        """result := previous content of the memory operand"""
+        if st is not None and w == 64 and inst.isp(res):
+            return inst.assign_p(res, lv)
+        return inst.assign(res, '(%s)(%s)%s' % (rct, ict, lv))
+
     def memop(n):
         o = ops[n]
         if not o['ind']:
@@ -105,7 +123,10 @@ def emit_asm(inst, ins, asm):
     lv, st, p = memop(mems[0])
     vis = inst.is_visible_ptr(p)
     wcast = ('(%s)' % T.ct(st)) if st is not None else ''
-    res = inst.reg(ins.res) if ins.res is not None and not isinstance(ins.ty, VoidT) else None
+    res = ins.res if ins.res is not None and not isinstance(ins.ty, VoidT) else None
+
+    def setres(expr):
+        return inst.assign(res, expr) if res else ''
     rct = T.ct(ins.ty) if res else None
 
     def begin(desc):
@@ -117,7 +138,7 @@ def emit_asm(inst, ins, asm):
     if mn == 'xchg':
         regn = [n for n in nums if not ops[n]['ind']][0]
         begin('xchg%s' % suf)
-        body.append('{ %s o_ = (%s)%s; %s = %s%s; %s = (%s)o_; }' % (ict, ict, lv, lv, wcast, isrc(regn), res, rct))
+        body.append('{ %s %s = %s%s; }' % (setres_slot(), lv, wcast, psrc(regn) if st is not None else isrc(regn)))
         return
     if mn == 'cmpxchg':
         srcn = nums[0]
@@ -128,21 +149,23 @@ def emit_asm(inst, ins, asm):
         if not locked:
             raise Unsupported('unlocked cmpxchg')
         begin('lock cmpxchg%s' % suf)
-        body.append('{ %s o_ = (%s)%s; if (o_ == %s) %s = %s%s; %s = (%s)o_; }' % (
-            ict, ict, lv, isrc(axn[0]), lv, wcast, isrc(srcn), res, rct))
+        if not res:
+            raise Unsupported('cmpxchg without result')
+        body.append('{ %s if ((%s)%s == %s) %s = %s%s; }' % (
+            setres_slot(), ict, inst.reg(res), isrc(axn[0]), lv, wcast, psrc(srcn) if st is not None else isrc(srcn)))
         return
     if mn == 'xadd':
         regn = nums[0]
         if locked:
             begin('lock xadd%s' % suf)
-            body.append('{ %s o_ = (%s)%s; %s = %s(%s)(o_ + %s); %s = (%s)o_; }' % (
-                ict, ict, lv, lv, wcast, ict, isrc(regn), res, rct))
+            body.append('{ %s o_ = (%s)%s; %s = %s(%s)(o_ + %s); %s }' % (
+                ict, ict, lv, lv, wcast, ict, isrc(regn), setres('(%s)o_' % rct)))
         else:
             tmp = inst.temp(ict)
             begin('xadd%s (unlocked) load' % suf)
             body.append('%s = (%s)%s;' % (tmp, ict, lv))
             begin('xadd%s (unlocked) store' % suf)
-            body.append('%s = %s(%s)(%s + %s); %s = (%s)%s;' % (lv, wcast, ict, tmp, isrc(regn), res, rct, tmp))
+            body.append('%s = %s(%s)(%s + %s); %s' % (lv, wcast, ict, tmp, isrc(regn), setres('(%s)%s' % (rct, tmp))))
         return
     if mn in RMW or mn in ('inc', 'dec', 'neg', 'not'):
         if mn in RMW:
